@@ -229,9 +229,35 @@ def _try_dt1(src, exp):
     return rec
 
 
+# PostgreSQL: "SELECT DISTINCT ON expressions must match initial ORDER BY expressions" - the ORDER BY of a DISTINCT ON query starts with the group keys, whatever the user's sort
+# names (round-7 seed C07-13); checked on the emitted text (no PostgreSQL here)
+_DON_CASES = ["from events\ngroup {user_id, day} (sort {-score, day} | take 1)\n", "from events\ngroup {user_id} (sort {-score} | take 1)\n",
+              "from events\ngroup {user_id, day} (sort {day, -score} | take 1)\n"]
+
+
+def _try_don(src):
+    import re as _re
+    import replaylib
+    rec = {"obligation": "group_take.DT2", "input": src, "replay_kind": "don", "expected": "ORDER BY starts with the DISTINCT ON expressions", "s": None, "e": None}
+    ok, sql = replaylib.compile_prql(src, "sql.postgres")
+    if not ok:
+        rec.update(failing=True, observed=sql[:300])
+        return rec
+    flat = " ".join(sql.split())
+    m = _re.search(r"DISTINCT ON \(([^)]*)\).*?ORDER BY (.*?)(?: LIMIT| OFFSET|$|\))", flat)
+    if not m:
+        rec.update(failing=False, observed="no DISTINCT ON: " + flat[:200])
+        return rec
+    keys = [k.strip() for k in m.group(1).split(",")]
+    order = [_re.sub(r"\s+(ASC|DESC)$", "", k.strip()) for k in m.group(2).split(",")]
+    rec.update(failing=sorted(order[:len(keys)]) != sorted(keys), observed=flat[:300])
+    return rec
+
+
 def sweep():
     vals = [None, 1, 2, 3]
-    return [_try(s, e, so) for s in vals for e in vals if not (s is None and e is None) for so in (True, False)] + [_try_dt1(*c) for c in _DT1_CASES]
+    return ([_try(s, e, so) for s in vals for e in vals if not (s is None and e is None) for so in (True, False)] + [_try_dt1(*c) for c in _DT1_CASES]
+            + [_try_don(c) for c in _DON_CASES])
 
 
 def replay(failure):
@@ -242,6 +268,8 @@ def replay(failure):
 
 
 def rerun(doc):
+    if doc.get("replay_kind") == "don":
+        return _try_don(doc["input"])
     if doc.get("replay_kind") == "dt1":
         import ast
         return _try_dt1(doc["input"], ast.literal_eval(doc["expected"]))
